@@ -146,8 +146,13 @@ static void check_errors(void) {
   { void* q = calloc(SIZE_MAX / 2 + 2, 2); if (q != NULL) violation("errors", "calloc overflow returned %p", q); }
   { void* q = malloc(SIZE_MAX - 4096); if (q != NULL) violation("errors", "malloc(SIZE_MAX-4096) returned %p", q); }
 #ifndef OVR_C
+  // every nothrow form must return NULL (not throw, not abort) for a size that cannot be satisfied
   { void* q = ::operator new(SIZE_MAX / 2, std::nothrow); if (q != NULL) violation("errors", "new(nothrow) of an impossible size returned %p", q); }
+  { void* q = ::operator new[](SIZE_MAX / 2 + 7, std::nothrow); if (q != NULL) violation("errors", "new[](nothrow) of an impossible size returned %p", q); }
+  { void* q = ::operator new(SIZE_MAX - 4096, std::align_val_t(64), std::nothrow); if (q != NULL) violation("errors", "aligned new(nothrow) of an impossible size returned %p", q); }
   { void* q = ::operator new[](SIZE_MAX - 64, std::align_val_t(64), std::nothrow); if (q != NULL) violation("errors", "aligned new[](nothrow) of an impossible size returned %p", q); }
+  { void* q = ::operator new((size_t)1 << 60, std::nothrow); if (q != NULL) violation("errors", "new(nothrow) of 2^60 bytes returned %p", q); }
+  { void* q = ::operator new[]((size_t)1 << 60, std::nothrow); if (q != NULL) violation("errors", "new[](nothrow) of 2^60 bytes returned %p", q); }
 #endif
   { void* q = malloc(0); if (q == NULL || !mi_in_region(q)) violation("errors", "malloc(0) returned %p", q); free(q); free(NULL); }
   n_nontrivial++;
